@@ -15,7 +15,7 @@
    flight when the process died, `c_edits` all edits applied so far, `c_crashed`, `c_torn`. *)
 From Coq Require Import NArith List Bool.
 From Blue Require Import Mani.Model Mani.Fs Mani.ModelMani Mani.ProofsOrder Mani.ProofsFormat
-  Mani.ProofsFs Mani.ProofsCrash Mani.ProofsLts Mani.ProofsChain Mani.ProofsChainLts Mani.ProofsVerify Mani.ProofsIter Mani.Lock Mani.ProofsLock.
+  Mani.ProofsFs Mani.ProofsCrash Mani.ProofsLts Mani.ProofsChain Mani.ProofsChainLts Mani.ProofsVerify Mani.ProofsIter Mani.Lock Mani.ProofsLock Mani.ProofsCut.
 Import ListNotations.
 Open Scope N_scope.
 
@@ -102,6 +102,30 @@ Theorem C13_truncation_prefix : forall crc es n, Forall wf_edit es ->
              read_mani crc (Some (firstn n (ser_edits crc es))) = Ok (spec_state (firstn j es)) /\
              forall k, (k <= length es)%nat -> (length (ser_edits crc (firstn k es)) <= n)%nat -> (k <= j)%nat).
 Proof. intros crc es n H. exact (trunc_all_class crc es n H). Qed.
+
+(* ---- 5b. the same clause for a directory WITH A HISTORY (no crash before the cut): after any
+   sequence of opens, edits, rollovers and closes, with the handle closed, MANIFEST holds exactly
+   ser_edits (head ++ tail) where c_edits c = pre ++ tail, `pre` are the edits applied before the
+   last rollover and head = [rollup (spec_state pre)] (head = [] and pre = [] if it never rolled
+   over; `mdata` is MANIFEST's content, [] if absent).  Cut MANIFEST to its first n bytes, for ANY
+   n, and reopen: the result is an error of class corruption / string-disallowed, or the state
+   after a PREFIX OF THE APPLIED EDITS, firstn i (c_edits c) — where i covers every applied edit
+   whose text lies wholly before the cut (with t = length tail and n >= the file length: i is all
+   of them; with a cut inside the roll-up itself: i = 0, the empty state). *)
+Theorem C13_cut_newest_file_prefix_of_applied : forall crc ratio c n,
+  reach crc ratio c -> c_crashed c = false -> c_h c = None ->
+  exists rolled pre tail,
+    c_edits c = pre ++ tail /\ mdata (c_fs c) = ser_edits crc (head_of rolled pre ++ tail) /\
+    match m_open crc ratio (cut_file FMani n (c_fs c), []) with
+    | Ok (m, _) =>
+        exists i, (i <= length (c_edits c))%nat /\ m_st m = spec_state (firstn i (c_edits c)) /\
+          forall t, (t <= length tail)%nat ->
+                    (length (ser_edits crc (head_of rolled pre ++ firstn t tail)) <= n)%nat ->
+                    (length pre + t <= i)%nat
+    | Err x => x = ECorruption \/ x = EDisallowed
+    | Panic => False
+    end.
+Proof. exact cut_newest_file. Qed.
 
 (* ---- 6. Manifest::open returns exactly what reading MANIFEST returns (the rollover it performs
    does not change the state; it never fails for file-system reasons and never panics), so 4 and 5
